@@ -322,6 +322,68 @@ def clause_d(facts, rep, fs):
     rep.require(n >= 5, 'C19.d: only %d obligations in Key' % n)
 
 
+def clause_event_kind(facts, rep, classes=('sonic_json::SchemaHandler', 'sonic_json::SAXHandler')):
+    """'taking the text's value whole': a scalar event hands its value on in its own kind.  In Bool / Uint / Int / Double
+    of the SAX handlers every occurrence of the value parameter inside a call or constructor argument reaches that
+    argument through no converting cast (only lvalue-to-rvalue / no-op): the setter or node constructor chosen by
+    overload resolution is then the one of the event's own type.  (uint64 -> int64 on the way stores 2^64-1 as -1.)"""
+    OK_CASTS = ('LValueToRValue', 'NoOp', 'ConstructorConversion', 'UserDefinedConversion')
+    n = 0
+    seen = set()
+    for f in facts.functions:
+        if f.cls_qn not in classes or f.short not in ('Bool', 'Uint', 'Int', 'Double') or len(f.params) != 1:
+            continue
+        key = (f.cls_qn, f.short, 'SAlloc' in f.name)
+        if key in seen:
+            continue
+        seen.add(key)
+        rep.fn(f)
+        pid = f.params[0]['id']
+        pt = f.params[0]['t'].replace('const ', '').strip()
+        uses = []
+
+        def visit(e, chain):
+            if not isinstance(e, dict):
+                return
+            if e.get('k') == 'ref' and e.get('id') == pid:
+                uses.append(list(chain))
+                return
+            for key_ in ('e', 'l', 'r', 'base', 'idx', 'c', 'a', 'b', 'obj', 'init', 'place'):
+                if isinstance(e.get(key_), dict):
+                    visit(e[key_], chain + [e])
+            for a in e.get('args', []) or []:
+                visit(a, chain + [('arg', e)])
+            for v in e.get('vars', []) or []:
+                if isinstance(v.get('init'), dict):
+                    visit(v['init'], chain + [e])
+        for bid, i, s_ in f.stmts():
+            visit(s_, [])
+        sinks = 0
+        bad = None
+        for chain in uses:
+            # casts between the reference and the nearest enclosing call / constructor argument
+            conv = []
+            sink = None
+            for node in reversed(chain):
+                if isinstance(node, tuple):
+                    sink = node[1]
+                    break
+                if node.get('k') == 'cast':
+                    if node.get('ck') not in OK_CASTS or (node.get('explicit') and (node.get('t') or '').replace('const ', '').strip() != pt):
+                        conv.append(node)
+                else:
+                    conv.append(node)     # an operator applied to the value before it is stored
+            if sink is None:
+                continue
+            sinks += 1
+            if conv and bad is None:
+                bad = 'the %s value reaches %s through %s' % (pt, show(sink)[:70], '; '.join('%s to %s' % (c.get('ck') or c.get('k'), c.get('t')) for c in conv))
+        n += 1
+        rep.check(bad is None and sinks >= 1, 'E9.event-kind', f.qn, '%s(%s): %d uses as a setter / constructor argument, none converted' % (f.short, pt, sinks), f.loc,
+                  bad or ('the value parameter is never stored' if sinks == 0 else ''), facts.config)
+    rep.require(n >= 8, 'event-kind: %d scalar events found in %s (>= 8 expected)' % (n, classes))
+
+
 def run(rep, tier):
     configs = ['K1'] if tier == 'quick' else ['K1', 'K3', 'K7']
     for cfg in configs:
@@ -343,6 +405,7 @@ def run(rep, tier):
             clause_d(facts, rep, fs)
         # "never corrupts memory or the document ... repeated application": new containers built by ParseSchema keep
         # views into the schema text buffer, so that buffer must outlive them (shared with C13 clause g)
+        clause_event_kind(facts, rep)
         from . import c13
         c13.clause_g(facts, rep)
         c13.clause_c(facts, rep)     # a replaced document node is destroy()ed before - not after - its header is rewritten
